@@ -211,15 +211,35 @@ pub struct Recorder {
     pub frozen: bool,
     /// discovery mode (PV_COLLECT=1, never used by registered checks): signature -> first example
     pub collected: BTreeMap<String, (u64, String)>,
+    pub known: Option<Arc<KnownFindings>>,
 }
 
 impl Recorder {
     pub fn new() -> Self {
-        Recorder { max_samples: 6, ..Default::default() }
+        Recorder { max_samples: 6, known: Some(Arc::new(KnownFindings::load())), ..Default::default() }
     }
     pub fn eval(&mut self) {
         if !self.frozen {
             self.evaluations += 1;
+        }
+    }
+    /// In-case tolerance of *listed* findings so that the search continues behind them: returns
+    /// true (and counts the hit) iff the failure matches an open known finding of this property.
+    pub fn tolerate(&mut self, prop: &str, f: &Failure) -> bool {
+        let Some(k) = self.known.clone() else { return false };
+        if let Some(e) = k.matches(prop, &f.sig) {
+            if !self.frozen {
+                *self.known_hits.entry(e.signature.clone()).or_insert(0) += 1;
+            }
+            true
+        } else if collect_mode() {
+            if !self.frozen {
+                let e = self.collected.entry(f.sig.clone()).or_insert((0, f.detail.clone()));
+                e.0 += 1;
+            }
+            true
+        } else {
+            false
         }
     }
     pub fn evals(&mut self, n: u64) {
@@ -314,6 +334,10 @@ pub trait Prop: Sync + Send {
     /// optional once-per-run setup (e.g. installing the solver shim); Err = harness trouble (exit 2)
     fn setup(&self, _tier: Tier) -> Result<(), String> {
         Ok(())
+    }
+    /// campaign-level watchdog per case in seconds (expiry = exit 2, inconclusive)
+    fn case_time_limit(&self) -> u64 {
+        120
     }
     /// threads to use (solver-backed properties may want fewer/more)
     fn threads(&self) -> usize {
@@ -455,6 +479,54 @@ pub fn collect_mode() -> bool {
     std::env::var("PV_COLLECT").is_ok()
 }
 
+/// per-worker heartbeat: (start of the current case, its payload)
+type Heartbeat = Arc<Mutex<Option<(Instant, String)>>>;
+
+/// Campaign-level watchdog: a case that runs longer than `limit` seconds is reported as harness
+/// trouble (exit 2) together with a replay file - never as a violation (only C13/C15, whose statement
+/// is termination / bounded time, convert a timeout into a failure themselves).
+fn spawn_watchdog(prop_id: &'static str, tier: Tier, beats: Vec<Heartbeat>, limit: u64) {
+    std::thread::spawn(move || {
+        loop {
+            std::thread::sleep(std::time::Duration::from_millis(500));
+            for b in beats.iter() {
+                let g = b.lock().unwrap();
+                if let Some((start, payload)) = g.as_ref() {
+                    if start.elapsed().as_secs() >= limit {
+                        let dir = verif_root().join("replays");
+                        let _ = std::fs::create_dir_all(&dir);
+                        let h = crate::tape::hash_bytes(payload.as_bytes());
+                        let path = dir.join(format!("{}-watchdog-{:016x}.replay", prop_id, h));
+                        let text = format!(
+                            "# property={} tier={} decoder={}\n# signature=hang/watchdog (case ran longer than {} s)\nproperty: {}\ntier: {}\n{}\n",
+                            prop_id, tier.name(), DECODER_VERSION, limit, prop_id, tier.name(), payload
+                        );
+                        let _ = std::fs::write(&path, text);
+                        println!(
+                            "WATCHDOG property={} a single case exceeded {} s; inconclusive, replay={}",
+                            prop_id, limit, path.display()
+                        );
+                        eprintln!("HARNESS-ERROR: watchdog expired (exit 2, not a violation)");
+                        std::process::exit(2);
+                    }
+                }
+            }
+        }
+    });
+}
+
+fn beat_set(b: &Heartbeat, payload: &Payload) {
+    let text = match payload {
+        Payload::Tape(t) => format!("tape: {}", hex(t)),
+        Payload::Item(i) => format!("item: {}", i),
+    };
+    *b.lock().unwrap() = Some((Instant::now(), text));
+}
+
+fn beat_clear(b: &Heartbeat) {
+    *b.lock().unwrap() = None;
+}
+
 pub struct RunOutcome {
     pub rec: Recorder,
     pub violations: Vec<(Found, PathBuf)>,
@@ -474,6 +546,8 @@ pub fn run_check(prop: Arc<dyn Prop>, tier: Tier) -> RunOutcome {
     let founds: Arc<Mutex<Vec<Found>>> = Arc::new(Mutex::new(vec![]));
     let agg: Arc<Mutex<Recorder>> = Arc::new(Mutex::new(Recorder::new()));
     let mut harness_errors = vec![];
+    let beats: Vec<Heartbeat> = (0..threads).map(|_| Arc::new(Mutex::new(None))).collect();
+    spawn_watchdog(prop.id(), tier, beats.clone(), prop.case_time_limit());
 
     if let Err(e) = prop.setup(tier) {
         harness_errors.push(format!("setup: {}", e));
@@ -511,12 +585,13 @@ pub fn run_check(prop: Arc<dyn Prop>, tier: Tier) -> RunOutcome {
     if n_items > 0 {
         let next = Arc::new(std::sync::atomic::AtomicU64::new(0));
         let mut handles = vec![];
-        for _ in 0..threads {
+        for w in 0..threads {
             let prop = prop.clone();
             let known = known.clone();
             let founds = founds.clone();
             let agg = agg.clone();
             let next = next.clone();
+            let beat = beats[w].clone();
             handles.push(std::thread::spawn(move || {
                 let mut rec = Recorder::new();
                 let mut local_sigs: HashSet<String> = HashSet::new();
@@ -526,7 +601,10 @@ pub fn run_check(prop: Arc<dyn Prop>, tier: Tier) -> RunOutcome {
                         break;
                     }
                     let payload = Payload::Item(i);
-                    if let Err(fail) = judge(prop.as_ref(), &payload, tier, &mut rec) {
+                    beat_set(&beat, &payload);
+                    let res = judge(prop.as_ref(), &payload, tier, &mut rec);
+                    beat_clear(&beat);
+                    if let Err(fail) = res {
                         if let Some(k) = known.matches(prop.id(), &fail.sig) {
                             *rec.known_hits.entry(k.signature.clone()).or_insert(0) += 1;
                         } else if local_sigs.insert(fail.sig.clone()) {
@@ -553,6 +631,7 @@ pub fn run_check(prop: Arc<dyn Prop>, tier: Tier) -> RunOutcome {
             let agg = agg.clone();
             let stop = stop.clone();
             let max_tape = budget.max_tape;
+            let beat = beats[w].clone();
             handles.push(std::thread::spawn(move || {
                 let rec = RefCell::new(Recorder::new());
                 let cfg = Config {
@@ -582,7 +661,10 @@ pub fn run_check(prop: Arc<dyn Prop>, tier: Tier) -> RunOutcome {
                     let mut r = rec.borrow_mut();
                     r.frozen = failed.get();
                     let payload = Payload::Tape(tape);
-                    match judge(prop.as_ref(), &payload, tier, &mut r) {
+                    beat_set(&beat, &payload);
+                    let res = judge(prop.as_ref(), &payload, tier, &mut r);
+                    beat_clear(&beat);
+                    match res {
                         Ok(()) => Ok(()),
                         Err(fail) => {
                             if let Some(k) = known.matches(prop.id(), &fail.sig) {
